@@ -677,9 +677,10 @@ func Remarshal(segs [][]byte) (out [][]byte, ok bool) {
 // ---------------------------------------------------------------- encoder 2: hand-assembled words
 
 type raw struct {
-	r    *Rand
-	pad  int
-	segs [][]uint64
+	r       *Rand
+	pad     int
+	farNull bool
+	segs    [][]uint64
 }
 
 // desc: where an encoded object lives and its pointer word with offset 0.
@@ -720,6 +721,13 @@ func (e *raw) extra() int {
 // ptrWord computes the word to store at (seg,pos) so that it refers to d.
 func (e *raw) ptrWord(seg, pos int, d desc) uint64 {
 	if d.null {
+		if e.farNull && e.r.Intn(6) == 0 {
+			// a null pointer reached through a far pointer: one-word landing pad holding 0
+			ps := e.r.Intn(len(e.segs))
+			pad := len(e.segs[ps])
+			e.segs[ps] = append(e.segs[ps], 0)
+			return rd.FarPtr(uint32(ps), uint32(pad), false)
+		}
 		return 0
 	}
 	if d.imm {
@@ -870,7 +878,7 @@ func (e *raw) enc(v *Val) desc {
 
 // EncodeRaw assembles the words of a message whose root pointer refers to root.
 func EncodeRaw(r *Rand, pad int, root *Val) [][]byte {
-	e := &raw{r: r, pad: pad, segs: [][]uint64{{0}}}
+	e := &raw{r: r, pad: pad, farNull: r.Intn(3) == 0, segs: [][]uint64{{0}}}
 	for k := r.Pick(4, 2, 1); k > 0; k-- {
 		e.segs = append(e.segs, nil)
 	}
